@@ -589,7 +589,7 @@ package node
 //@   mode bv
 //@   requires r != nil
 //@   assigns r.Row64, r.Row
-//@   ensures r.Row64 == row
+//@   ensures r.Row64 == row && r.Row == int(row)
 //@ func (r *ListRequest) IncrementRow()
 //@   mode bv
 //@   requires r != nil
